@@ -10,6 +10,11 @@ package main
 // (stuck=true plus a classified goroutine dump). Observed: per call its error class, per bug the
 // acknowledged operations, the history stored in git (read back on a fresh repository handle after
 // Close, commit by commit), and whether the live cache agreed with a cache rebuilt from git.
+// Checkpoints: whenever every goroutine has returned from its calls (all wait at a barrier while one of them runs
+// the call "snap"; and once they are done, before the flush) the cache files are copied as they are on disk, next to
+// the excerpt of every entity. After the live cache is closed, each set of files is put back and the repository is
+// opened through the normal path (the files are loaded, nothing is rebuilt): the excerpts so loaded must be those
+// of the entities (bugs with staged operations excepted), the last set also those of the cache rebuilt from git.
 // The schedule is not observable: coq/K_C18.v decides whether the outcome is one the model allows.
 
 import (
@@ -38,7 +43,7 @@ import (
 
 // one call of a goroutine
 type c18Call struct {
-	K      string `json:"k"`            // new | edit | commit | resolve | query | queryq | querys | allids | barrier
+	K      string `json:"k"`            // new | edit | commit | resolve | query | queryq | querys | allids | barrier | snap
 	B      int    `json:"b"`            // shared bug index (>= 0) or -1: the goroutine's own latest bug
 	Op     string `json:"op,omitempty"` // edit: comment | title | close | open | label | body; querys: the search term
 	Commit bool   `json:"commit,omitempty"`
@@ -56,6 +61,8 @@ type c18Input struct {
 	Timeout   int         `json:"timeout_s,omitempty"` // watchdog hard limit, default 120
 	Rebuilds  int         `json:"rebuilds,omitempty"`  // flavour rebuild: number of cache rebuilds before the goroutines start
 	Authors   int         `json:"authors,omitempty"`   // flavour rebuild: identities, each the author of Shared bugs
+	FastDisk  bool        `json:"fast_disk,omitempty"` // put the repository on a memory file system (/dev/shm) when there is one: many more rounds per second
+	BudgetMs  int         `json:"budget_ms,omitempty"` // flavour persist: once the goroutines have run for so long, the remaining edits are skipped (slow disks)
 }
 
 type c18Driver struct{}
@@ -121,7 +128,62 @@ func c18GenChurn(r *Rand) c18Input {
 	return in
 }
 
+// flavour persist: 8-16 goroutines, in rounds: a barrier, then every goroutine makes one small change (edit +
+// Commit, or a staged edit) of a bug that is mostly its own, so that the notifications - each of which saves the
+// excerpts in .git/git-bug/cache - finish at about the same time; a second barrier, then ONE goroutine takes a
+// checkpoint while the others wait (call snap): the cache files as they are on disk at that moment, next to the
+// excerpt of every entity. Every checkpoint is a point where "the goroutines are done": a process that stopped there
+// and started again (the normal path: the cache files are loaded, nothing is rebuilt) must list what git holds.
+// Few processors for many goroutines on purpose: a goroutine that gives up its processor inside a system call
+// (creating / writing the cache file) queues behind all the others before it goes on.
+func c18GenPersist(r *Rand, big bool) c18Input {
+	in := c18Input{Flavor: "persist", FastDisk: true, BudgetMs: 5000}
+	in.Procs = []int{2, 4, 4, 16, 1, 2}[r.Intn(6)]
+	// few goroutines, many rounds: per round the last two or three notifications decide what is on disk, and the
+	// evaluation of a case in Coq grows with the cube of the number of calls (unary operation numbers)
+	nth := r.Range(3, 6)
+	if big {
+		nth = r.Range(6, 10)
+	}
+	rounds := r.Range(40, 60)
+	if rounds*nth > 320 {
+		rounds = 320 / nth
+	}
+	in.Shared = nth
+	if r.Chance(1, 4) {
+		in.Shared = r.Range((nth+1)/2, nth) // some goroutines share a bug
+	}
+	in.Reopen = r.Chance(1, 3)
+	ops := []string{"title", "close", "comment", "open", "label", "title", "body"}
+	for t := 0; t < nth; t++ {
+		var calls []c18Call
+		for k := 0; k < rounds; k++ {
+			calls = append(calls, c18Call{K: "barrier", B: -1})
+			b := t % in.Shared
+			if r.Chance(1, 10) {
+				b = r.Intn(in.Shared)
+			}
+			switch {
+			case r.Chance(1, 12): // sits this round out
+			case r.Chance(1, 12):
+				calls = append(calls, c18Call{K: "edit", B: b, Op: ops[(t+k)%len(ops)], Commit: false})
+			default:
+				calls = append(calls, c18Call{K: "edit", B: b, Op: ops[(t+k)%len(ops)], Commit: true, Prefix: r.Chance(1, 8)})
+			}
+			calls = append(calls, c18Call{K: "barrier", B: -1})
+			if t == 0 {
+				calls = append(calls, c18Call{K: "snap", B: -1})
+			}
+		}
+		in.Threads = append(in.Threads, calls)
+	}
+	return in
+}
+
 func c18GenCase(r *Rand, flavor string, big bool) c18Input {
+	if flavor == "persist" {
+		return c18GenPersist(r, big)
+	}
 	if flavor == "burst" {
 		return c18GenBurst(r, big)
 	}
@@ -205,18 +267,36 @@ func (c18Driver) Gen(r *Rand, tier string) []json.RawMessage {
 	plan := []struct {
 		flavor string
 		n      int
-	}{{"mixed", 10}, {"reopen", 14}, {"evict", 12}, {"query", 10}, {"tiny", 4}, {"burst", 5}, {"churn", 4}}
+	}{{"mixed", 10}, {"reopen", 14}, {"evict", 12}, {"query", 10}, {"tiny", 4}, {"burst", 5}, {"churn", 4}, {"persist", 10}}
 	mult := 1
 	if tier == "thorough" {
 		mult = 18
 	}
-	var res []json.RawMessage
+	var res, persist []json.RawMessage
 	for _, p := range plan {
 		for i := 0; i < p.n*mult; i++ {
-			res = append(res, mustJSON(c18GenCase(r, p.flavor, tier == "thorough" || i%4 == 0)))
+			c := mustJSON(c18GenCase(r, p.flavor, tier == "thorough" || i%4 == 0))
+			if p.flavor == "persist" {
+				persist = append(persist, c)
+			} else {
+				res = append(res, c)
+			}
 		}
 	}
-	return res
+	// the persist cases are long lists of calls, the most expensive ones to evaluate in Coq: spread them evenly over
+	// the run (hence over the shards, which are evaluated in parallel); generated last, so that the cases of the
+	// other flavours are the ones the same seed gave before
+	var merged []json.RawMessage
+	np, no, j := len(persist), len(res), 0
+	for i, c := range res {
+		merged = append(merged, c)
+		for j < np && (j+1)*no/(np+1) == i+1 {
+			merged = append(merged, persist[j])
+			j++
+		}
+	}
+	merged = append(merged, persist[j:]...)
+	return merged
 }
 
 // ---- running ----
@@ -270,6 +350,107 @@ type c18Run struct {
 	doneCount *atomic.Int64
 	notes     []string
 	bar       *c18Barrier
+	cks       []c18Checkpoint
+	tmpfs     bool
+	began     time.Time   // the goroutines were started
+	cut       atomic.Bool // the budget of the run is used up: remaining edits are skipped
+}
+
+// a point where every goroutine of the run has returned from its calls (all of them wait at a barrier, or all are
+// done): the cache files as they are on disk, and per bug the cache lists the excerpt of the entity it hands out
+type c18Checkpoint struct {
+	Label string
+	Files map[string][]byte
+	Bugs  map[string]c18CkBug
+}
+
+type c18CkBug struct {
+	Staged bool   // operations not committed yet: the entity of the cache is ahead of git by design
+	Want   string // excerpt computed from the entity
+}
+
+func c18CacheFileDir(dir string) string { return filepath.Join(dir, ".git", "git-bug", "cache") }
+
+// checkpoint must only be called while no other goroutine of the run is inside a cache call
+func (s *c18Run) checkpoint(label string) {
+	ck := c18Checkpoint{Label: label, Files: map[string][]byte{}, Bugs: map[string]c18CkBug{}}
+	ents, _ := os.ReadDir(c18CacheFileDir(s.dir))
+	for _, e := range ents {
+		if e.IsDir() {
+			continue
+		}
+		if data, err := os.ReadFile(filepath.Join(c18CacheFileDir(s.dir), e.Name())); err == nil {
+			ck.Files[e.Name()] = data
+		}
+	}
+	for _, id := range s.c.Bugs().AllIds() {
+		b, err := s.c.Bugs().Resolve(id)
+		if err != nil {
+			continue
+		}
+		ck.Bugs[id.String()] = c18CkBug{Staged: b.NeedCommit(), Want: c18ExcerptStr(cache.NewBugExcerpt(b))}
+	}
+	s.cks = append(s.cks, ck)
+}
+
+// Once the live cache is closed: for every checkpoint, put the cache files of that moment back, open the
+// repository through the normal path (NewRepoCache loads the files; it rebuilds only when it cannot) and compare
+// the excerpt of every bug that had nothing staged with the excerpt its entity gave at the checkpoint.
+// Returns bug id -> difference, notes, and what the cache loaded from the files of the LAST checkpoint (the
+// goroutines were done; the flush that followed only commits staged operations) lists for the bugs that had
+// nothing staged: the caller compares it with the cache rebuilt from git.
+func (s *c18Run) reloadChecks() (map[string]string, []string, map[string]string) {
+	res := map[string]string{}
+	lastLoaded := map[string]string{}
+	var notes []string
+	for i, ck := range s.cks {
+		if len(ck.Files) == 0 {
+			notes = append(notes, "checkpoint "+ck.Label+": no cache files")
+			continue
+		}
+		for name, data := range ck.Files {
+			if err := os.WriteFile(filepath.Join(c18CacheFileDir(s.dir), name), data, 0o644); err != nil {
+				notes = append(notes, "checkpoint "+ck.Label+": "+err.Error())
+			}
+		}
+		if err := s.open(); err != nil {
+			notes = append(notes, "checkpoint "+ck.Label+": open: "+err.Error())
+			continue
+		}
+		accepted := true
+		for name, data := range ck.Files {
+			now, err := os.ReadFile(filepath.Join(c18CacheFileDir(s.dir), name))
+			if err != nil || string(now) != string(data) {
+				accepted = false
+			}
+		}
+		if !accepted {
+			// the files were not loaded as they were: the cache was built again from git, nothing to compare
+			notes = append(notes, "checkpoint "+ck.Label+": saved cache not accepted, rebuilt")
+			_ = s.c.Close()
+			continue
+		}
+		last := i == len(s.cks)-1
+		for id, cb := range ck.Bugs {
+			if cb.Staged {
+				continue
+			}
+			ex, err := s.c.Bugs().ResolveExcerpt(entity.Id(id))
+			if err != nil {
+				res[id] = fmt.Sprintf("checkpoint %s: the saved cache, loaded again, does not know the bug: %v", ck.Label, err)
+				continue
+			}
+			have := c18ExcerptStr(ex)
+			if last {
+				lastLoaded[id] = have
+			}
+			if have != cb.Want {
+				res[id] = fmt.Sprintf("checkpoint %s: the saved cache, loaded again, holds {%s}; the entity gave {%s}", ck.Label, have, cb.Want)
+			}
+		}
+		_ = s.c.Close()
+	}
+	return res, notes, lastLoaded
 }
 
 // a cyclic barrier for the goroutines of one run; a goroutine that ends leaves it for good
@@ -329,9 +510,19 @@ func (s *c18Run) open() error {
 }
 
 func (s *c18Run) setup() error {
-	dir, err := os.MkdirTemp("", "verif-c18-")
-	if err != nil {
-		return err
+	dir := ""
+	var err error
+	if s.in.FastDisk {
+		if st, e := os.Stat("/dev/shm"); e == nil && st.IsDir() {
+			if dir, err = os.MkdirTemp("/dev/shm", "verif-c18-"); err == nil {
+				s.tmpfs = true
+			}
+		}
+	}
+	if dir == "" {
+		if dir, err = os.MkdirTemp("", "verif-c18-"); err != nil {
+			return err
+		}
 	}
 	s.dir = dir
 	r, err := newTestRepo(dir, false)
@@ -506,7 +697,7 @@ func (s *c18Run) worker(t int, start <-chan struct{}, wg *sync.WaitGroup) {
 				own = b.Id()
 			}
 		case "edit":
-			if target == "" {
+			if target == "" || s.cut.Load() {
 				rec.Done = true
 				continue
 			}
@@ -625,6 +816,15 @@ func (s *c18Run) worker(t int, start <-chan struct{}, wg *sync.WaitGroup) {
 			}
 		case "barrier":
 			c18BarrierWait(s.bar)
+		case "snap":
+			// the others wait at the next barrier
+			if s.cut.Load() {
+				break
+			}
+			s.checkpoint(fmt.Sprintf("t%dk%d", t, k))
+			if s.in.BudgetMs > 0 && time.Since(s.began) > time.Duration(s.in.BudgetMs)*time.Millisecond {
+				s.cut.Store(true)
+			}
 		}
 		rec.Done = true
 		if s.doneCount != nil {
@@ -882,6 +1082,8 @@ type c18Obs struct {
 	Diff       []string             `json:"diff,omitempty"`
 	Stale      map[string]string    `json:"stale_excerpts,omitempty"` // before the flush: excerpt in the cache != excerpt of the cached entity
 	StaleIndex map[string]string    `json:"stale_index,omitempty"`    // before the flush: full-text index != texts of the cached entity
+	SavedStale map[string]string    `json:"saved_stale,omitempty"`    // at a checkpoint: excerpt in the saved cache files, loaded again, != excerpt of the entity
+	Checks     int                  `json:"checkpoints"`              // number of checkpoints (the last one: once the goroutines were done)
 	Notes      []string             `json:"notes,omitempty"`
 	WallMs     int64                `json:"wall_ms"`  // the goroutines
 	TotalMs    int64                `json:"total_ms"` // set-up, goroutines, flush, observations, rebuild
@@ -891,6 +1093,17 @@ func (c18Driver) Run(raw json.RawMessage) Case {
 	var in c18Input
 	if err := json.Unmarshal(raw, &in); err != nil || len(in.Threads) == 0 || in.Shared < 1 {
 		return Case{Skip: "bad input"}
+	}
+	ncalls := 0
+	for _, th := range in.Threads {
+		for _, c := range th {
+			if c.K != "barrier" && c.K != "snap" {
+				ncalls++
+			}
+		}
+	}
+	if ncalls >= 1000 {
+		return Case{Skip: "too many calls: operation numbers would collide with those of the create operations"}
 	}
 	if in.Procs < 1 {
 		in.Procs = 1
@@ -924,6 +1137,7 @@ func (c18Driver) Run(raw json.RawMessage) Case {
 	}
 	done := make(chan struct{})
 	go func() { wg.Wait(); close(done) }()
+	s.began = time.Now()
 	close(start)
 	obs := c18Obs{Coherent: true}
 	timeout := in.Timeout
@@ -1010,9 +1224,13 @@ wait:
 	obs.WallMs = time.Since(t0).Milliseconds()
 
 	// copy what the goroutines recorded (a stuck goroutine may still own its current record: only Done ones are read)
+	// (barriers and checkpoints are not cache calls: they are not part of the observation)
 	var calls []c18Rec
 	for t := range s.recs {
 		for k := range s.recs[t] {
+			if ck := in.Threads[t][k].K; ck == "barrier" || ck == "snap" {
+				continue
+			}
 			r := s.recs[t][k]
 			if !obs.Stuck || r.Done {
 				calls = append(calls, r)
@@ -1038,6 +1256,8 @@ wait:
 	flushClass := map[string]int{}
 	var live c18View
 	if !obs.Stuck {
+		// what is on disk now is what the next process would load
+		s.checkpoint("done")
 		// the excerpts the goroutines left behind against the entities they belong to
 		obs.Stale = c18StaleExcerpts(s.c)
 		obs.StaleIndex = s.staleIndex(calls)
@@ -1078,6 +1298,15 @@ wait:
 		_ = r2.Close()
 	}
 
+	// the cache as it was saved, loaded again
+	var lastLoaded map[string]string
+	if !obs.Stuck {
+		var notes []string
+		obs.SavedStale, notes, lastLoaded = s.reloadChecks()
+		obs.Checks = len(s.cks)
+		obs.Notes = append(obs.Notes, notes...)
+	}
+
 	// cache against a rebuild from git
 	if !obs.Stuck {
 		for _, d := range c18CacheDirs(s.dir) {
@@ -1090,6 +1319,12 @@ wait:
 			rebuilt := c18Observe(s.c)
 			obs.Diff = c18Diff(live, rebuilt)
 			obs.Coherent = len(obs.Diff) == 0
+			// the cache the next process would have loaded, against git
+			for id, have := range lastLoaded {
+				if rb, ok := rebuilt.Bugs[id]; ok && rb.Excerpt != have && obs.SavedStale[id] == "" {
+					obs.SavedStale[id] = fmt.Sprintf("checkpoint done: the saved cache, loaded again, holds {%s}; rebuilt from git {%s}", have, rb.Excerpt)
+				}
+			}
 			_ = s.c.Close()
 		}
 		os.RemoveAll(s.dir)
@@ -1208,11 +1443,23 @@ func c18Render(in c18Input, raw json.RawMessage, s *c18Run, obs c18Obs, flushCla
 		staleNos = append(staleNos, bugNo[id])
 	}
 	sort.Ints(staleNos)
+	// the bugs whose excerpt in the saved cache files, loaded again, was not the one of the entity at some checkpoint
+	var savedNos []int
+	for id := range obs.SavedStale {
+		savedNos = append(savedNos, bugNo[id])
+	}
+	sort.Ints(savedNos)
 	// last field: unsynchronised accesses to a Go map seen by the race detector (filled in by the C18r driver)
-	term := fmt.Sprintf("mkcase %d %d %s %s %s %s %s %s 0", evict, len(s.shared), coqList(callTerms), coqList(flushTerms), coqList(bugTerms), coqBool(obs.Stuck), coqBool(obs.Coherent), coqNats(staleNos))
+	term := fmt.Sprintf("mkcase %d %d %s %s %s %s %s %s %s 0", evict, len(s.shared), coqList(callTerms), coqList(flushTerms), coqList(bugTerms), coqBool(obs.Stuck), coqBool(obs.Coherent), coqNats(staleNos), coqNats(savedNos))
 	tags := []string{"flavor:" + in.Flavor, fmt.Sprintf("procs:%d", in.Procs), fmt.Sprintf("n:goroutines:%d", len(in.Threads)), fmt.Sprintf("evict:%d", evict)}
 	if in.Reopen {
 		tags = append(tags, "reopen")
+	}
+	if s.tmpfs {
+		tags = append(tags, "disk:tmpfs")
+	}
+	if s.cut.Load() {
+		tags = append(tags, "budget-cut")
 	}
 	if obs.Stuck {
 		tags = append(tags, "stuck")
@@ -1242,6 +1489,45 @@ func c18Render(in c18Input, raw json.RawMessage, s *c18Run, obs c18Obs, flushCla
 		}
 		for k := range kinds {
 			tags = append(tags, k)
+		}
+	}
+	if obs.Checks > 1 {
+		tags = append(tags, "checkpoints:mid-run")
+	}
+	for _, n := range obs.Notes {
+		if strings.Contains(n, "saved cache not accepted") {
+			tags = append(tags, "saved-cache-rebuilt")
+			break
+		}
+	}
+	if len(obs.SavedStale) > 0 {
+		tags = append(tags, "saved-stale")
+		// explained only the way a stale excerpt in memory is: entityUpdated refused the notification about that bug
+		missed := map[string]bool{}
+		for _, r := range obs.Calls {
+			if r.Bug != "" && (r.EditE == c18Missing || r.CommE == c18Missing) {
+				missed[r.Bug] = true
+			}
+		}
+		unexplained := false
+		for id := range obs.SavedStale {
+			if !missed[id] {
+				unexplained = true
+			}
+		}
+		if unexplained {
+			tags = append(tags, "saved-stale:unexplained")
+			has := false
+			for _, t := range tags {
+				if t == "stale:unexplained" {
+					has = true
+				}
+			}
+			if !has {
+				tags = append(tags, "stale:unexplained") // keeps the case out of every known finding's signature
+			}
+		} else {
+			tags = append(tags, "saved-stale:after-missing")
 		}
 	}
 	if !obs.Coherent {
